@@ -293,6 +293,34 @@ func c13SlowBodies(w *World) []Violation {
 	return vs
 }
 
+// c13RolloutGroupUnhealthy: a request of the rollout group while no rollout target is healthy. Whatever the proxy
+// decides to do with it, a response that comes from a target (chunked, no declared length) is returned unchanged.
+func c13RolloutGroupUnhealthy(w *World) []Violation {
+	var vs []Violation
+	w.AddTarget("c13act:80")
+	w.AddTarget("c13roll:80", pOK(), p500())
+	if r := w.Deploy(deployArgs("c13ru", []string{"c13act:80"}, []string{"ru.example.com"}, nil)); r.Err != nil {
+		return []Violation{{"C13", "setup", r.Err.Error()}}
+	}
+	if r := w.RolloutDeploy("c13ru", []string{"c13roll:80"}); r.Err != nil {
+		return []Violation{{"C13", "setup", r.Err.Error()}}
+	}
+	w.RolloutSet("c13ru", 100, nil)
+	time.Sleep(2*vI + 300*time.Millisecond)
+	for _, plan := range []string{"r=rchunk", "r=r200", "r=r404"} {
+		c13seq++
+		o := w.Do(ReqSpec{ID: fmt.Sprintf("ru-%d", c13seq), Host: "ru.example.com", Path: "/x", Cookie: "kamal-rollout=v", Plan: plan})
+		if o.ServedBy() == "" {
+			continue // answered by the proxy itself
+		}
+		want := w.Net.Raw[strings.TrimPrefix(plan, "r=")]
+		if want != nil && (o.Status != want.Status || string(o.Body) != string(want.Body)) {
+			vs = append(vs, Violation{"C13", "response-body-changed rollout-group-unhealthy", fmt.Sprintf("response from %s (%s): status %d body %q, the target sent status %d body %q", o.ServedBy(), plan, o.Status, firstN(o.Body, 80), want.Status, firstN(want.Body, 80))})
+		}
+	}
+	return vs
+}
+
 var c13seq int
 
 func c13Run(c c13in) func(w *World) []Violation {
@@ -621,6 +649,7 @@ func c13Cases(tier string) []ECase {
 	for _, k := range []string{"held-by-pause", "slow-buffered-upload"} {
 		cases = append(cases, ECase{Name: "concurrent " + k, Class: "concurrent " + k, Run: c13Concurrent(k)})
 	}
+	cases = append(cases, ECase{Name: "rollout group without a healthy target", Class: "rollout-group-unhealthy", Run: c13RolloutGroupUnhealthy})
 	cases = append(cases, ECase{Name: "bodies slower than the target timeout", Class: "slow-bodies", Run: c13SlowBodies})
 	cases = append(cases, ECase{Name: "redeploy onto the same target with forwarding / stripping flipped", Class: "redeploy-same-target", Run: c13RedeploySameTarget})
 	for _, in := range ins {
